@@ -428,12 +428,25 @@ def v2_cases(repo, table):
     legacy3 = "Tot = Sum(InFieldNames = [Src, Src2])"
     migrated = [("AB = Sum(InFieldNames = [Src, Src2], OutFileName = out.csv)", "AB = Sum(InFieldNames = [Src, Src2])"),
                 ("CP = Copy(InFieldName = Src, NewFieldName = Ignored, OutFileName = out.csv)", "CP = Copy(InFieldName = Src)"),
-                ("MX = Maximum(InFieldNames = [Src, Src2], NewFieldName = Other)", "MX = Maximum(InFieldNames = [Src, Src2])")]
+                ("MX = Maximum(InFieldNames = [Src, Src2], NewFieldName = Other)", "MX = Maximum(InFieldNames = [Src, Src2])"),
+                # MPilot's own command names written the EEMS 2.0 way (no result name): not in the table, passed through under the same name
+                ("Sum(InFieldNames = [Src, Src2], NewFieldName = Tot2)", "Tot2 = Sum(InFieldNames = [Src, Src2])"),
+                ("CvtToFuzzyZScore(InFieldName = Src, TrueThresholdZScore = 1, FalseThresholdZScore = -1, NewFieldName = BFz)",
+                 "BFz = CvtToFuzzyZScore(InFieldName = Src, TrueThresholdZScore = 1, FalseThresholdZScore = -1)"),
+                ("NormalizeZScore(InFieldName = Src2, NewFieldName = NZ, OutFileName = out.csv)", "NZ = NormalizeZScore(InFieldName = Src2)")]
     for (m2, m3) in migrated:
         for first in (True, False):
             v2t = pre + ((legacy + "\n" + m2) if first else (m2 + "\n" + legacy))
             v3t = pre + ((legacy3 + "\n" + m3) if first else (m3 + "\n" + legacy3))
             cases.append({"v2": v2t, "v3": v3t, "name": "mixed", "variant": "half-migrated/%s" % ("legacy-first" if first else "legacy-last")})
+    # the mapping is the same for every load: programs over a smaller library selection loaded earlier in the process (last: the cases run in one process)
+    hist = [{"src": "Z = Copy(InFieldName = Q)\n", "libraries": ["mpilot.libraries.eems.basic"]},
+            {"src": "READ(InFileName = data.csv, InFieldName = Elev)\nSUM(InFieldNames = [Elev, Elev], NewFieldName = T)\n", "libraries": ["mpilot.libraries.eems.basic"]},
+            {"src": "F = FuzzyNot(InFieldName = G)\n", "libraries": ["mpilot.libraries.eems.fuzzy"]}]
+    v2h = "READ(InFileName = data.csv, InFieldName = Elev)\nCVTTOFUZZY(InFieldName = Elev, TrueThreshold = 10, FalseThreshold = 0, NewFieldName = Fz)\nNOT(InFieldName = Fz, NewFieldName = NFz)\nSUM(InFieldNames = [Elev, Elev], NewFieldName = T)"
+    v3h = "Elev = EEMSRead(InFileName = data.csv, InFieldName = Elev)\nFz = CvtToFuzzy(InFieldName = Elev, TrueThreshold = 10, FalseThreshold = 0)\nNFz = FuzzyNot(InFieldName = Fz)\nT = Sum(InFieldNames = [Elev, Elev])"
+    cases.append({"v2": v2h, "v3": v3h, "name": "history", "variant": "before-other-selections"})
+    cases.append({"v2": v2h, "v3": v3h, "name": "history", "variant": "after-other-selections", "history": hist})
     return cases
 
 
